@@ -10,7 +10,7 @@ Extraction "model.ml"
   mkNum mkCircuit mkGinfo
   graph_edges graph_nodes
   reduced_ket expand_ket
-  normalize_angle mk_axis mk_bsr mk_bsr_ax mk_ctrl mk_mat is_identity bsr_identity
+  normalize_angle mk_axis mk_axis_checked mk_bsr_checked mk_bsr mk_bsr_ax mk_ctrl mk_mat is_identity bsr_identity
   can1 get_matrix circuit_matrix gates_matrix
   default_gate aba_angles aba_gates mckay_gates cnot_gates compose_gates try_name merge decompose replace run_decomposer
   remap mapping_ok mapper_ok apply_mapping render_py8 fix_literal write3 export_v1 export_qs
